@@ -258,7 +258,16 @@ struct SysGen {
       case 4: { EP a = gen(cols, rows, depth - 1, &ca); c = ca; return mk(K_TRANS, {a}); }
       case 5: { int k = r.range(2, 3); EP a = gen(rows, k, depth - 1, &ca), b = gen(k, cols, depth - 1, &cb); c = ca && cb; return mk(K_MUL, {a, b}); }
       case 6: { // a range of a longer vector / a block of a matrix
-        if (rows == 1 || cols == 1) { int n = rows * cols, extra = r.range(0, 2), first = r.range(0, extra); EP v = gen(rows == 1 ? 1 : n + extra, rows == 1 ? n + extra : 1, depth - 1, &ca); c = ca; bool m = r.coin(75); int b = m ? 1 : 0;
+        if (rows == 1 || cols == 1) {
+          // inside a loop / a sum: a window that MOVES with the iterator, x(i+s : i+s+n-1) (every iteration must read its own slice)
+          std::vector<SymI> its; for (auto& s : syms) if (s.kind == 'i') its.push_back(s);
+          if (!its.empty() && r.coin(60)) {
+            SymI it = its[r.below(its.size())]; int n = rows * cols, span = it.hi - it.lo, extra = r.range(0, 1), first0 = r.range(0, extra), N = n + span + extra;
+            EP v = gen(rows == 1 ? 1 : N, rows == 1 ? N : 1, depth - 1, &ca); c = ca; bool m = r.coin(75); int b = m ? 1 : 0, sh = b + first0 - it.lo;
+            auto shifted = [&](int d) { EP e = mksym(it.name); if (d > 0) e = mk(K_ADD, {e, lit_int(d)}); else if (d < 0) e = mk(K_SUB, {e, lit_int(-d)}); return e; };
+            EP ix = mk(K_IDXRANGE, {shifted(sh), shifted(sh + n - 1)}); EP e = mk(K_IDX, {v, ix}); e->matlab = m; return e;
+          }
+          int n = rows * cols, extra = r.range(0, 2), first = r.range(0, extra); EP v = gen(rows == 1 ? 1 : n + extra, rows == 1 ? n + extra : 1, depth - 1, &ca); c = ca; bool m = r.coin(75); int b = m ? 1 : 0;
           EP ix = mk(K_IDXRANGE, {intexpr(first + b), intexpr(first + n - 1 + b)}); EP e = mk(K_IDX, {v, ix}); e->matlab = m; return e; }
         EP M = gen(rows + 1, cols, depth - 1, &ca); c = ca; int first = r.range(0, 1);
         EP e = mk(K_IDX, {M, mk(K_IDXRANGE, {lit_int(first + 1), lit_int(first + rows)}), mk(K_IDXALL)}); e->matlab = true; return e; }
